@@ -790,6 +790,36 @@ int32_t tls13WritePskBinderPlaceholder(ssl_t *ssl,
     return PS_SUCCESS;
 }
 
+/* Whether the client offers this PSK in the ClientHello it is writing:
+   not when the PSK goes with a hash algorithm that none of the offered
+   cipher suites uses, as this could lead to handshake failure if the
+   server tries to validate the corresponding binder. The identities, the
+   binders and the index the server selects all refer to the offered PSKs
+   only. */
+psBool_t tls13ClientOffersPsk(ssl_t *ssl, psTls13Psk_t *psk)
+{
+    if (tls13GetPskHmacAlg(psk) == HMAC_SHA384)
+    {
+        return ssl->tls13CHContainsSha384Suite ? PS_TRUE : PS_FALSE;
+    }
+    /* SHA-256 is the default. */
+    return ssl->tls13CHContainsSha256Suite ? PS_TRUE : PS_FALSE;
+}
+
+static psBool_t tls13ClientOffersSomePsk(ssl_t *ssl)
+{
+    psTls13Psk_t *psk;
+
+    for (psk = ssl->sec.tls13SessionPskList; psk != NULL; psk = psk->next)
+    {
+        if (tls13ClientOffersPsk(ssl, psk))
+        {
+            return PS_TRUE;
+        }
+    }
+    return PS_FALSE;
+}
+
 int32_t tls13FillInPskBinders(ssl_t *ssl,
         unsigned char *bindersStart)
 {
@@ -811,6 +841,12 @@ int32_t tls13FillInPskBinders(ssl_t *ssl,
     psk = ssl->sec.tls13SessionPskList;
     while (psk)
     {
+        if (!tls13ClientOffersPsk(ssl, psk))
+        {
+            /* No identity and no binder placeholder was written for it. */
+            psk = psk->next;
+            continue;
+        }
         hmacAlg = tls13GetPskHmacAlg(psk);
         hmacLen = tls13GetPskHashLen(psk);
 
@@ -938,25 +974,13 @@ int32_t tls13WritePreSharedKey(ssl_t *ssl,
         haveClientBufs = PS_TRUE;
         while (psk != NULL)
         {
-	    /* Don't try to offer a PSK that is associated with a hash
-	       algorithm that is not supported in the ciphersuite list
-	       we sent, as this could lead to handshake failure if the
-	       server tries to validate the corresponding binder. */
-	    if (tls13GetPskHmacAlg(psk) == HMAC_SHA384)
-	    {
-		if (!ssl->tls13CHContainsSha384Suite)
-		{
-		    goto next_psk;
-		}
-	    }
-	    else
-	    {
-		/* SHA-256 is the default. */
-		if (!ssl->tls13CHContainsSha256Suite)
-		{
-		    goto next_psk;
-		}
-	    }
+            /* Don't try to offer a PSK that is associated with a hash
+               algorithm that is not supported in the ciphersuite list
+               we sent. */
+            if (!tls13ClientOffersPsk(ssl, psk))
+            {
+                goto next_psk;
+            }
 
             rc = tls13WritePskIdentity(ssl, &idBuf, psk);
             if (rc < 0)
@@ -1527,8 +1551,9 @@ int32_t tls13WriteClientHelloExtensions(ssl_t *ssl,
         }
     }
 
-    if (ssl->sec.tls13SessionPskList != NULL ||
-            (ssl->sid != NULL && ssl->sid->psk != NULL))
+    /* Only with a PSK to offer: a pre_shared_key extension with an empty
+       identity list is malformed. */
+    if (tls13ClientOffersSomePsk(ssl))
     {
         rc = tls13WritePskKeyExchangeModes(ssl, extBuf);
         if (rc < 0)
